@@ -262,6 +262,9 @@ fn main() {
             jobs.push(Job { label: format!("edit:items-shuffled:{name}"), text: t, model: false });
         }
     }
+    for (label, text) in if quick { call_shape_texts(2, false) } else { call_shape_texts(3, true) } {
+        jobs.push(Job { label, text, model: false });
+    }
     for (k, (label, text)) in impl_header_texts().into_iter().enumerate() {
         jobs.push(Job { label, text, model: k % 40 == 0 });
     }
@@ -359,7 +362,7 @@ fn main() {
     let mut seen: BTreeMap<(String, String), u64> = BTreeMap::new();
     let mut queries = 0u64;
     for (j, r) in jobs.iter().zip(results) {
-        let kind = j.label.split(':').take(if j.label.starts_with("mut") || j.label.starts_with("inftype") || j.label.starts_with("arity") || j.label.starts_with("illdecl") || j.label.starts_with("diverge") || j.label.starts_with("litedge") || j.label.starts_with("defbind") || j.label.starts_with("edit") || j.label.starts_with("implhdr") || j.label.starts_with("defctx") || j.label.starts_with("nsuse") || j.label.starts_with("assign") || j.label.starts_with("complete") { 2 } else { 1 }).collect::<Vec<_>>().join(":");
+        let kind = j.label.split(':').take(if j.label.starts_with("mut") || j.label.starts_with("inftype") || j.label.starts_with("arity") || j.label.starts_with("illdecl") || j.label.starts_with("diverge") || j.label.starts_with("litedge") || j.label.starts_with("defbind") || j.label.starts_with("edit") || j.label.starts_with("implhdr") || j.label.starts_with("callshape") || j.label.starts_with("defctx") || j.label.starts_with("nsuse") || j.label.starts_with("assign") || j.label.starts_with("complete") { 2 } else { 1 }).collect::<Vec<_>>().join(":");
         ctx.count(&format!("text:{kind}"));
         if !j.text.is_ascii() {
             ctx.count("text:non-ascii");
